@@ -370,6 +370,7 @@ unsafe extern "C" {
 
 const SYS_CLOCK_GETTIME: std::ffi::c_long = 228;
 const SYS_GETPID: std::ffi::c_long = 39;
+const SYS_GETPPID: std::ffi::c_long = 110;
 
 /// Clock seam, in-process side. A launch thread (one with an installed plan) reads the plan's
 /// simulated clock; every other thread of the harness gets the real one by raw system call, so
@@ -425,5 +426,26 @@ pub extern "C" fn getpid() -> c_int {
         Some(pid) => pid as c_int,
         // SAFETY: plain system call without arguments.
         None => unsafe { syscall(SYS_GETPID) as c_int },
+    }
+}
+
+/// Parent identity, in-process side: the plan's pid minus one for launch threads.
+#[cfg(all(target_os = "linux", target_arch = "x86_64"))]
+#[unsafe(no_mangle)]
+pub extern "C" fn getppid() -> c_int {
+    let simulated = STATE
+        .try_with(|s| {
+            let Ok(mut s) = s.try_borrow_mut() else { return None };
+            if !s.installed {
+                return None;
+            }
+            s.pid_reads += 1;
+            Some(s.pid.wrapping_sub(1))
+        })
+        .unwrap_or(None);
+    match simulated {
+        Some(pid) => pid as c_int,
+        // SAFETY: plain system call without arguments.
+        None => unsafe { syscall(SYS_GETPPID) as c_int },
     }
 }
